@@ -274,6 +274,10 @@ def run_case(ctx, ci, case, mism):
         else:
             for (idx, mode, content, others, ev), dg in zip(results, digests):
                 allowed[(idx, mode)] = dg
+    if scheme == "unknown":
+        mism.append(dict(rep_base, what="the recorded operations follow neither the in-place nor the temp+replace scheme "
+                                        "(no theorem covers them)", trace_kinds=_compress([o[0] for o in ops]),
+                         paths={v: k for k, v in paths.items()}))
     if not model_ok:
         ctx.count("scheme_confirmed_by_model", "no")
     else:
@@ -381,6 +385,17 @@ def run(ctx, proof):
             # every oracle failure is the known in-place defect but something else disagrees with the model as well
             ctx.violation("correspondence broken besides the in-place defect", {"mismatches": len(mism), "first": mism[0]},
                           found_input=False)
+    # most informative replays first: faults that lost earlier runs, one per case, then the rest
+    seen = set()
+
+    def rank(v):
+        r = v["replay"]
+        lost = len((r.get("verdict") or {}).get("lost_runs") or [])
+        first_of_case = r.get("case_index") not in seen
+        seen.add(r.get("case_index"))
+        return (0 if v["found_input"] else 1, 0 if (lost and first_of_case) else 1, 0 if first_of_case else 1)
+    ranks = [rank(v) for v in ctx.violations]
+    ctx.violations[:] = [v for _, v in sorted(zip(ranks, ctx.violations), key=lambda t: t[0])]
     ctx.coverage["exhaustive"] = False
     ctx.coverage["violating_fault_points"] = sum(1 for v in ctx.violations if v["found_input"])
 
